@@ -76,6 +76,8 @@ def finding_matches(finding, prop, rec):
             return False
     if "tag" in m and rec.get("tag") not in m["tag"]:
         return False
+    if "error_has" in m and m["error_has"] not in str(rec.get("error", "")):
+        return False
     if "where" in m:
         for k, v in m["where"].items():
             if rec.get(k) not in v:
